@@ -190,6 +190,9 @@ func c13Exec(r *vfRun) {
 		return
 	}
 	op := sc.Ops[0]
+	if op.K == "readat" || op.K == "writeat" {
+		op.Off = start // one source of truth for the transfer's start (keeps shrunk scenarios consistent)
+	}
 	isRead := op.K == "readat" || op.K == "read" || op.K == "writeto"
 	content := vfFill(tag^1, 0, size)
 	if isRead {
